@@ -251,22 +251,50 @@ def _linear(repo, col):
             col.check(n.value.func.attr == "add" and arg in (want, alt, "1000.0*" + want[:-7], "(" + want + ")") and ix == "indices", R, fc,
                       f"channels: {tgt} += {want} at the channel's own compartments", unparse(n.value)[:80],
                       f"{tgt} is accumulated as `{unparse(n.value)}`; required .at[indices].add({want})", node=n)
-    # accumulation signs (synapses)
-    aug = {}
-    for n in ast.walk(fs.node):
-        if isinstance(n, ast.AugAssign) and isinstance(n.target, ast.Name) and n.target.id in ("syn_voltage_terms", "syn_constant_terms"):
-            aug[n.target.id] = (type(n.op).__name__, unparse(n.value), n)
-    ok = aug.get("syn_voltage_terms", ("",))[0] == "Add" and aug.get("syn_constant_terms", ("",))[0] == "Sub"
-    col.add(R, fs, "synapses: voltage terms += slope, constant terms -= offset (same signs as channels)",
-            "DISCHARGED" if ok else ("VIOLATED" if len(aug) == 2 else "UNDECIDED"),
-            str({k: v[:2] for k, v in aug.items()}) if ok else
-            (f"accumulation is {({k: v[:2] for k, v in aug.items()})}" if len(aug) == 2 else
-             "the accumulators syn_voltage_terms / syn_constant_terms were not found (renamed?)"), node=fs.node)
-    if len(aug) == 2:
-        ok = aug["syn_voltage_terms"][1].endswith("[0]") and aug["syn_constant_terms"][1].endswith("[1]") and \
-            aug["syn_voltage_terms"][1][:-3] == aug["syn_constant_terms"][1][:-3]
-        col.check(ok, R, fs, "gathered (slope, offset) pair is used in that order", "g[0] -> voltage terms, g[1] -> constant terms",
-                  f"{aug['syn_voltage_terms'][1]} / {aug['syn_constant_terms'][1]}", node=aug["syn_voltage_terms"][2])
+    # accumulation signs (synapses): the returned pair is (sum of the gathered slopes, MINUS the sum of the gathered offsets),
+    # read off the returned terms -- `x += g[0]`, `x = x + g0` after unpacking, ... are the same
+    from sa.termalg import term_rat as _trat
+    from sa.algebra import Rat as _Rat, Und as _Und
+    exs_ = idx.expander(repo, fs)
+    rr = exs_.returns[-1] if exs_.returns else None
+    pair = None
+    if rr is not None and rr.op == "tuple" and len(rr.args) == 2 and rr.args[1].op == "tuple" and len(rr.args[1].args) == 2:
+        pair = rr.args[1].args
+
+    def acc_form(t):
+        """form of one loop-carried accumulator in the atoms c (value before the iteration), g0 / g1 (gathered slope / offset)"""
+        body = t
+        if t.op == "phi":
+            alts = [a_ for a_ in t.args if T.find(a_, lambda x: x.op == "call" and x.name == "gather_synapes") is not None]
+            if len(alts) != 1:
+                raise _Und("accumulator is not a loop-carried sum")
+            body = alts[0]
+
+        def leaf(x):
+            if x.op == "item" and isinstance(x.name, int) and x.args[0].op == "call" and x.args[0].name == "gather_synapes":
+                return _Rat.atom(f"g{x.name}")
+            if x.op == "sub" and x.args[0].op == "call" and x.args[0].name == "gather_synapes" and x.args[1].op == "const" and \
+                    isinstance(x.args[1].name, int):
+                return _Rat.atom(f"g{x.args[1].name}")
+            if x.op == "phi" and any(a_.op == "carried" for a_ in x.args):
+                return _Rat.atom("c")
+            if x.op == "carried":
+                return _Rat.atom("c")
+            return None
+        return _trat(body, leaf)
+    if pair is None:
+        col.unk(R, fs, "synapses: voltage terms += slope, constant terms -= offset (same signs as channels)",
+                "the returned (voltage terms, constant terms) pair was not found", node=fs.node)
+    else:
+        try:
+            fa, fb = acc_form(pair[0]), acc_form(pair[1])
+            c_, g0, g1 = _Rat.atom("c"), _Rat.atom("g0"), _Rat.atom("g1")
+            ok = fa.eq(c_ + g0) and fb.eq(c_ - g1)
+            col.check(ok, R, fs, "synapses: voltage terms += slope, constant terms -= offset (same signs as channels)",
+                      "(c + g[0], c - g[1])", f"the accumulators are updated as ({fa}, {fb}) with c the running sum and g = gather_synapes(...): "
+                      f"required (c + g0, c - g1)", node=fs.node)
+        except _Und as e:
+            col.unk(R, fs, "synapses: voltage terms += slope, constant terms -= offset (same signs as channels)", str(e), node=fs.node)
     ex = idx.expander(repo, fs)
     gs = next((c for c in ex.calls if isinstance(c.func, ast.Name) and c.func.id == "gather_synapes"), None)
     if gs is not None:
